@@ -38,3 +38,193 @@ BASE = {
 
 def base():
     return dict(BASE)
+
+
+# ------------------------------------------------------------------------------------ std::map / std::function
+import re as _re
+
+NODE_HDR = 32      # sizeof(std::_Rb_tree_node_base) on x86-64 libstdc++
+
+
+def _tables(st):
+    return st.extra.setdefault('tables', {})
+
+
+def _pair_type(ex, fname):
+    f = ex.mod.functions.get(fname)
+    if f is None:
+        raise Unsupported('no declaration of %s' % fname)
+    t = f.params[1][0]
+    if t[0] != 'ptr':
+        raise Unsupported('initializer_list parameter of %s is not a pointer' % fname)
+    return t[1]
+
+
+def map_ctor_il(ex, st, fr, ins, name, argv):
+    """std::map<K,V>::map(initializer_list<pair<const K,V>>, const Compare&, const Alloc&): an abstract table whose
+    nodes are laid out like libstdc++'s _Rb_tree_node (32-byte header, value at +32); first key wins"""
+    this, ilp, iln = argv[0], argv[1], argv[2]
+    if not tm.is_ic(iln):
+        raise Unsupported('symbolic initializer_list length')
+    pty = _pair_type(ex, name)
+    stride = ex.sizeof(pty)
+    kty = ex.resolve(pty)[2][0]
+    entries = []
+    seen = set()
+    for i in range(iln.args[0]):
+        src = Ptr(ilp.region, ilp.off + i * stride)
+        key = ex.load(st, src, kty)
+        if not tm.is_ic(key):
+            raise Unsupported('non-constant key in table initialiser')
+        if key.args[0] in seen:
+            continue
+        seen.add(key.args[0])
+        rid = st.new_region(NODE_HDR + stride, 'heap', 'map-node')
+        ex.memcpy(st, Ptr(rid, NODE_HDR), src, stride)
+        entries.append((key.args[0], rid))
+    tb = dict(_tables(st))
+    tb[(this.region, this.off)] = {'kind': 'map', 'pair': pty, 'key_ty': kty, 'entries': entries, 'name': st.regions[this.region].name}
+    st.extra['tables'] = tb
+    st.events.append(('table-init', st.regions[this.region].name, len(entries)))
+    return None
+
+
+def _lookup(ex, st, fr, ins, name, argv, on_hit, on_miss):
+    this, kp = argv[0], argv[1]
+    tb = _tables(st).get((this.region, this.off))
+    if tb is None:
+        # the table's dynamic initialiser has not run: this is what a static-initialisation-order bug looks like
+        st.ub.append(('lookup in a table before its dynamic initialisation', st.regions[this.region].name))
+        st.status = 'uninitialised-table'
+        return None
+    key = ex.load(st, kp, tb['key_ty'])
+    st.events.append(('lookup', tb['name'], key))
+    if tm.is_ic(key):
+        for k, rid in tb['entries']:
+            if k == key.args[0]:
+                return on_hit(st, rid, tb)
+        return on_miss(st, this, tb)
+    if not isinstance(key, tm.T):
+        raise Unsupported('table key %r' % (key,))
+    # symbolic key: one successor state per entry plus the miss
+    out = []
+    res = ins.res
+    normal = ins.a[3]
+    pending = []
+    for k, rid in tb['entries']:
+        eq = mk('icmp', 'i1', 'eq', key, ic(key.ty, k))
+        ne = tm.negate(eq)
+        if ne.id in st.pcset or (tm.is_ic(eq) and eq.args[0] == 0):
+            continue
+        pending.append((eq, ne, rid))
+    for eq, ne, rid in pending:
+        s2 = st.clone()
+        s2.assume(eq)
+        v = on_hit(s2, rid, tb)
+        _finish(ex, s2, res, v, normal)
+        out.append(s2)
+    for eq, ne, rid in pending:
+        st.assume(ne)
+    v = on_miss(st, this, tb)
+    _finish(ex, st, res, v, normal)
+    out.append(st)
+    return out
+
+
+def _finish(ex, s, res, v, normal):
+    if s.status is not None:
+        return
+    f2 = s.frames[-1]
+    if res is not None:
+        f2.env[res] = v
+    if normal is not None:
+        ex.jump(s, f2, normal)
+
+
+def map_find(ex, st, fr, ins, name, argv):
+    return _lookup(ex, st, fr, ins, name, argv,
+                   lambda s, rid, tb: Ptr(rid, 0),
+                   lambda s, this, tb: Ptr(this.region, this.off + 8))      # end(): &_M_impl._M_header
+
+
+def map_at(ex, st, fr, ins, name, argv):
+    def hit(s, rid, tb):
+        offs, _ = ex.layout(tb['pair'])
+        return Ptr(rid, NODE_HDR + offs[1])
+
+    def miss(s, this, tb):
+        s.events.append(('throw', 'std::out_of_range', tb['name']))
+        unwind = ins.a[4]
+        if unwind is not None:
+            ex.jump(s, s.frames[-1], unwind)
+            return None
+        s.status = 'throw:std::out_of_range'
+        return None
+    return _lookup(ex, st, fr, ins, name, argv, hit, miss)
+
+
+def noop(ex, st, fr, ins, name, argv):
+    return None
+
+
+def throw_bad_function_call(ex, st, fr, ins, name, argv):
+    st.events.append(('throw', 'std::bad_function_call', ''))
+    st.status = 'throw:std::bad_function_call'
+    return None
+
+
+def is_map_ctor(n):
+    return n.startswith('_ZNSt3mapI') and ('EC2ESt16initializer_listI' in n or 'EC1ESt16initializer_listI' in n)
+
+
+def is_map_find(n):
+    return (n.startswith('_ZNKSt3mapI') or n.startswith('_ZNSt3mapI')) and _re.search(r'E4findERS', n) is not None
+
+
+def is_map_at(n):
+    return (n.startswith('_ZNKSt3mapI') or n.startswith('_ZNSt3mapI')) and _re.search(r'E2atERS', n) is not None
+
+
+def containers():
+    d = base()
+    d['__cxa_atexit'] = lambda ex, st, fr, ins, name, argv: ic('i32', 0)
+    d['_ZSt25__throw_bad_function_callv'] = throw_bad_function_call
+    d['__cxa_guard_acquire'] = lambda ex, st, fr, ins, name, argv: ic('i32', 1)
+    d['__cxa_guard_release'] = noop
+    d['__cxa_guard_abort'] = noop
+    d['_ZNSt8ios_base4InitC1Ev'] = noop
+    d['_ZNSt8ios_base4InitD1Ev'] = noop
+    d['__patterns__'] = [(is_map_ctor, map_ctor_il), (is_map_find, map_find), (is_map_at, map_at)]
+    return d
+
+
+def run_initialisers(ex, st, wanted=None):
+    """execute the dynamic initialisers (llvm.global_ctors order) of the namespace-scope tables; wanted = set of
+    global names (None = all tables whose initialiser is in the module)"""
+    done = []
+    for prio, fn, data in ex.mod.ctors:
+        if fn is None:
+            continue
+        if wanted is not None and data not in wanted:
+            continue
+        if data is None and wanted is not None:
+            continue
+        f = ex.mod.functions.get(fn)
+        if f is None or f.declared:
+            continue
+        snap = st.clone()
+        try:
+            sub = ex.run(fn, [], st)
+            if len(sub) != 1 or sub[0].status != 'ret':
+                raise Unsupported('initialiser %s did not run to a single normal return (%s)' % (fn, [s.status for s in sub]))
+        except Unsupported as e:
+            if wanted is not None:
+                raise
+            st = snap
+            st.events.append(('initialiser-skipped', data, str(e)[:120]))
+            continue
+        st = sub[0]
+        st.status = None
+        st.ret = None
+        done.append(data)
+    return st, done
